@@ -410,7 +410,10 @@ HARNESSES = {
         + [{"fixed": {"kind": "switched", "ns": 0, "mut": m, "svc_state": 0, "app_state": 0}, "timeout": 280} for m in (104, 105, 106, 107)]
         + [{"fixed": {"kind": "switched", "ns": 0, "mut": -1, "svc_state": 0, "app_state": 0, "fstate": f}, "timeout": 280} for f in (1, 2)]
         + [{"fixed": {"kind": "firewalled", "node_name": "firewall_1", "ns": n, "mut": m, "svc_state": 0, "app_state": 0}, "timeout": 280} for n, m in ((0, -1), (0, 3), (2, -1))],
-        "thorough": [{"fixed": {"kind": k, "ns": n}, "timeout": 1500} for k in ("switched", "routed") for n in range(4)]
+        # one job per (topology, power state, mutation): unmodified with the full 6x3 service/application product,
+        # every misspelt position 0..8 and every truncation length 0..8 with the 6 coupled state pairs
+        "thorough": [{"fixed": {"kind": k, "ns": n, "mut": -1}, "timeout": 1500} for k in ("switched", "routed") for n in range(4)]
+        + [{"fixed": {"kind": k, "ns": n, "mut": m, "couple": True}, "timeout": 900} for k in ("switched", "routed") for n in range(4) for m in list(range(0, 9)) + list(range(100, 109))]
         + [{"fixed": {"kind": "firewalled", "node_name": "firewall_1", "ns": n, "couple": True}, "timeout": 1500} for n in range(4)]
         + [{"fixed": {"kind": "switched", "ns": n, "couple": True, "fstate": f}, "timeout": 1500} for n in (0, 2) for f in (1, 2)],
         "cover": ["reached", "not_reached", "deleted_target"],
